@@ -1,15 +1,22 @@
 """C06 - MSI coherence invariants hold at every cycle on the multi-core variants.
 
-Proof: coq/theories/Props/C06.v about the abstract machine Msi/Protocol.v (mvp7-0 / mvp7-1; the L3
-       level of mvp8-0 is not in the machine): the invariant is inductive for the code as it is
-       without flush and for the repaired protocol with flush; cacheController.flush as coded is
-       refuted by three witness traces.
+Proof: coq/theories/Props/C06.v about the abstract machine Msi/Protocol.v (mvp7-0 / mvp7-1): the
+       invariant is inductive for the code as it is without flush and for the repaired protocol with
+       flush; cacheController.flush as coded is refuted by three witness traces.
+       coq/theories/Props/C06_l3.v about the three-level machine Msi/L3Protocol.v (mvp8-0: L1s / shared
+       L3 / memory): with the repaired L3 refill the invariant (next level = L3 copy if present, else
+       memory), the L3 clauses (one copy per line, aligned, within capacity) and the data-value
+       property (current value = last value written) hold in every reachable state; for the L3 refill
+       AS CODED clauses 1, 3, 5 and the L3 structure are proved and clause 2, occupancy and data value
+       are refuted by witness traces (the three L3 findings of known_findings.json).
 Property on the implementation, per cycle: the cache controllers + MSI directory of mvp7-0, mvp7-1,
        mvp8-0 are driven (a) without a pipeline by scripts of load/store requests in the order CPU.Run
        uses (tools/harness/msi.go `msi-rig`; hook proc/<variant>/verif_rig.go) and (b) by whole programs
        on the real CPU (`msi-run`, snapshot at every VerifTick); after every cycle the state is
-       snapshotted and the extracted boolean invariant (Msi/Invariant.v `violated`: clauses 1-5 of the
-       property + the supporting conjuncts) is evaluated on it by build/msi_oracle.
+       snapshotted and the extracted boolean invariants (Msi/Invariant.v `violated`: clauses 1-5 of the
+       property + the supporting conjuncts; Msi/L3Invariant.v `violated3`: L3 well-formed / within
+       capacity / clean lines equal memory, and - rig only - the current value of every written line
+       is the last completed write) are evaluated on it by build/msi_oracle.
        A violated clause or a panic of the controllers on a concrete script / program is a
        counterexample, unless the trace shows the trigger of a listed defect of cacheController.flush
        (known_findings.json), which is recognised from two consecutive snapshots (`flush_marks`).
@@ -18,6 +25,7 @@ import collections
 import concurrent.futures
 import itertools
 import os
+import re
 import subprocess
 
 from . import common as C
@@ -27,6 +35,23 @@ PID = 'C06'
 VARIANTS = ['7.0', '7.1', '8.0']
 CLAUSES = ['C1_single_writer', 'C2_shared_clean', 'C3_l1_iff_valid', 'C4_l1_wellformed', 'C5_lock_counters']
 SUPPORT = ['S_command_matches_state', 'S_counters_match_transactions', 'S_wellformed', 'S_read_returns_latest_write']
+# Msi/L3Invariant.v (violated3): the L3 clauses of MVP-8.0 and the data-value clause (rig scripts, all variants)
+L3_CLAUSES = ['L3_wellformed', 'L3_within_capacity', 'L3_clean_matches_memory', 'D_current_value_is_last_write']
+# what the stale L3 line of the refill race produces first
+L3_STALE_FIRST = {'S_read_returns_latest_write', 'L3_clean_matches_memory', 'D_current_value_is_last_write'}
+
+
+def l3_capacity():
+    """number of lines of the shared L3 of MVP-8.0, read off the source (the snapshot exporter does not
+    report it): l3CacheSize / l3CacheLineSize of proc/mvp8-0/cpu.go"""
+    try:
+        src = open(os.path.join(C.REPO, 'proc/mvp8-0/cpu.go')).read()
+        unit = {'bytes': 1, 'kilobytes': 1024}
+        line = re.search(r'l3CacheLineSize\s*=\s*(\d+)\s*\*\s*(\w+)', src)
+        size = re.search(r'l3CacheSize\s*=\s*(\d+)\s*\*\s*(\w+)', src)
+        return (int(size.group(1)) * unit[size.group(2)]) // (int(line.group(1)) * unit[line.group(2)])
+    except Exception:
+        return 32
 # panics raised by the controllers / the semaphore / the cache on a protocol error
 PROTOCOL_PANICS = ['write is negative', 'read is negative', 'invalid state', "cache line doesn't exist",
                    'memory address should exist', 'unknown ']
@@ -46,7 +71,8 @@ def _run_shard(args):
     while start < n:
         sh = '%s %s %s %d | %s cases -' % (harness, cmd, path, start, C.BUILD + '/msi_oracle')
         try:
-            p = subprocess.run(sh, shell=True, capture_output=True, text=True, timeout=timeout, env=C.ENV)
+            p = subprocess.run(sh, shell=True, capture_output=True, text=True, timeout=timeout,
+                               env=dict(C.ENV, MSI_L3CAP=str(l3_capacity())))
             out = p.stdout
         except subprocess.TimeoutExpired as e:
             out = e.stdout.decode() if isinstance(e.stdout, bytes) else (e.stdout or '')
@@ -288,8 +314,18 @@ def attribute(r, has_flush):
     if r['variant_hint'] == '8.0' and any(m.startswith('l3_double_victim') for m, c in r['marks']) and \
             'memory address should exist' in (r['panic'] or '') and 'coSnoop' in r.get('site', '') and fb is None:
         return 'l3_double_victim'
+    # the same defect seen as occupancy: more lines than capacity + outstanding victim commands means that a
+    # victim was named twice (two cores with l3Evict commands, or one core whose read did not wait for its command)
     if r['variant_hint'] == '8.0' and fb is not None and \
-            set(n for n, c in r['viol'] if c == fb) == {'S_read_returns_latest_write'} and \
+            set(n for n, c in r['viol'] if c == fb) == {'L3_within_capacity'}:
+        return 'l3_double_victim'
+    # an l3Evict command (fixed when the victim was named) ran on a line that was written into meanwhile
+    if r['variant_hint'] == '8.0' and fb is not None and \
+            set(n for n, c in r['viol'] if c == fb) <= {'D_current_value_is_last_write', 'S_read_returns_latest_write'} and \
+            any(m.startswith('l3_evict_dirty') and c <= fb for m, c in r['marks']):
+        return 'l3_evict_dirty'
+    if r['variant_hint'] == '8.0' and fb is not None and \
+            set(n for n, c in r['viol'] if c == fb) <= L3_STALE_FIRST and \
             any(m.startswith('l3_stale') and c <= fb for m, c in r['marks']):
         return 'l3_stale'
     if not has_flush:
@@ -356,13 +392,13 @@ def describe(r):
 # ----------------------------------------------------------------------------------------------
 
 def run(ctx):
-    C.prepare(ctx, 'C06')
+    C.prepare(ctx, ['C06', 'C06_l3'])
     rng = ctx.rng
     quick = ctx.tier == 'quick'
-    ok_or, out_or = C.ensure_oracle(ctx, 'msi', ['theories/Msi/Invariant.vo'], ['Msi'])
+    ok_or, out_or = C.ensure_oracle(ctx, 'msi', ['theories/Msi/Invariant.vo', 'theories/Msi/L3Invariant.vo'], ['Msi'])
     if not ok_or:
         ctx.broken.append({'file': 'coq/theories/Extract/MsiOracle.v', 'line': None,
-                           'lemma': 'extraction of the snapshot judge inv_b', 'error': out_or[-800:]})
+                           'lemma': 'extraction of the snapshot judges inv_b / l3_b', 'error': out_or[-800:]})
     found = False
     known = [e for e in C.load_known(PID) if e.get('status') == 'known']
     by_mark = {e.get('mark'): e for e in known}
@@ -552,7 +588,12 @@ def run(ctx):
                 'one snoop command was sent and a core lost a line (transition M->I or S->I), i.e. two cores contended for '
                 'a line with a write involved, or a capacity eviction happened; distinct = distinct case lines. Rig scripts are '
                 'additionally checked against a harness-level data reference (a completed read returns the last completed '
-                'write, memory after Export holds the last writes): supporting clause S_read_returns_latest_write.',
+                'write, memory after Export holds the last writes): supporting clause S_read_returns_latest_write; the same '
+                'reference is exported per cycle (field REF of the S line) and the extracted clause D_current_value_is_last_write '
+                'checks that the Modified copy, else the L3 copy, else memory of every written line equals it. On MVP-8.0 the '
+                'extracted L3 clauses are judged on every snapshot: L3_wellformed (no two copies, aligned, full lines), '
+                'L3_within_capacity (lines <= capacity + outstanding L3 victim commands; capacity read off cpu.go), '
+                'L3_clean_matches_memory (a line not marked dirty equals memory).',
         'samples': samples,
         'cases_by_generator': dict(by_kind),
         'cores': {str(k): v for k, v in sorted(cores_hist.items())},
@@ -564,8 +605,12 @@ def run(ctx):
         'known_finding_instances': dict(known_hits),
         'exhaustive': False,
         'notes': ctx.notes,
-        'not_covered': 'the L3 level of MVP-8.0 is not in the Coq machine (8.0 is judged by the run-time invariant only); '
-                       'no step_ok refinement check between consecutive snapshots and the abstract transitions',
+        'l3_capacity_lines_read_off_source': l3_capacity(),
+        'clauses_judged': CLAUSES + SUPPORT + L3_CLAUSES,
+        'not_covered': 'no step_ok refinement check between consecutive snapshots and the abstract transitions; the '
+                       'per-line L3 mutex (msi.l3Lock) is not in the three-level machine (it is exported and ignored); '
+                       'the data-value clause needs a reference of completed writes and is therefore judged on rig '
+                       'scripts only (not on whole-program runs, not after the first injected flush)',
     }
     assumptions = [
         'the snapshot hooks (proc/comp/verif_msi.go, proc/mvp7-0|7-1|8-0/verif_rig.go) copy the state faithfully; the rig '
@@ -573,7 +618,9 @@ def run(ctx):
         'latencies inside the coroutines are abstracted to "eventually" in the machine; the implementation is observed once per cycle',
         'transfer in progress (clause 3) on a snapshot = the core is inside a read/write transaction on that line '
         '(coroutine past its start and line in rlockSems/lockSems); in the machine = the phases between fill and settle',
-        'random exploration is sampled; the proof covers every interleaving of the abstract machine for MVP-7.0/7.1 only',
+        'random exploration is sampled; the proofs cover every interleaving of the abstract machines (Msi/Protocol.v for '
+        'MVP-7.0/7.1, Msi/L3Protocol.v for MVP-8.0); the L3 capacity is not in the snapshot and is read off '
+        'proc/mvp8-0/cpu.go (l3CacheSize / l3CacheLineSize)',
     ]
     return C.finish(ctx, 'proof', coverage, assumptions,
-                    'cd coq && make theories/Props/C06.vo  (coqc 8.16.1; Print Assumptions: closed)')
+                    'cd coq && make theories/Props/C06.vo theories/Props/C06_l3.vo  (coqc 8.16.1; Print Assumptions: closed)')
